@@ -236,6 +236,9 @@ def solve_core(s, t, debug=False):
             print(*args)
 
     var_names = [v.name for v in term.get_vars(As + [C])]
+    if len(set(var_names)) != len(var_names):
+        # Z3 constants are identified by name and sort, and nat and int share a sort.
+        raise Z3Exception("solve_core: variables with the same name and different types")
     assms = dict()
     to_real = dict()
     for A in As:
@@ -260,7 +263,10 @@ def solve_core(s, t, debug=False):
 
 def solve(t, debug=False):
     """Solve the given goal using Z3."""
-    s = solve_core(z3.Solver(), t, debug)
+    try:
+        s = solve_core(z3.Solver(), t, debug)
+    except Z3Exception:
+        return False
     return str(s.check()) == 'unsat'
  
 
